@@ -251,6 +251,8 @@ def c08(tier, seed):
                 "liquidate-deep": (underwater_prefix(native, toll, spread, push=30000), sweep("engine", "liquidate", "liq", dict(vamm="vamm1", trader="tr1", limit=0))),
                 "pay-funding": ([block(15), opn("tr1", "buy", 3000, funds=F(3000)), block(3700)], sweep("engine", "pay_funding", "stranger", dict(vamm="vamm1"))),
                 "pay-funding-neg": ([block(15), opn("tr1", "sell", 3000, funds=F(3000)), block(3700)], sweep("engine", "pay_funding", "stranger", dict(vamm="vamm1"))),
+                "pay-funding-fund-pays-long": ([block(15), opn("tr1", "buy", 3000, funds=F(3000)), tx("feed", "append_price", "owner", dict(key="ETH", price=2500, t=100015)), block(3700)], sweep("engine", "pay_funding", "stranger", dict(vamm="vamm1"))),
+                "pay-funding-fund-pays-short": ([block(15), opn("tr1", "sell", 3000, funds=F(3000)), tx("feed", "append_price", "owner", dict(key="ETH", price=300, t=100015)), block(3700)], sweep("engine", "pay_funding", "stranger", dict(vamm="vamm1"))),
             }
             for nm, (pre, sw) in cases.items():
                 for plr in ((0, 25) if nm.startswith("liquidate") else (0,)):
@@ -270,6 +272,8 @@ def c08(tier, seed):
         ("slippage", dep("cw20"), [opn("tr1", "buy", 2000, limit=999999), opn("tr1", "buy", 2000), close("tr1", limit=999999)]),
         ("native-short", dep("native"), [opn("tr1", "buy", 2000, funds=1999), opn("tr1", "buy", 2000, funds=2001), opn("tr1", "buy", 2000, funds=0)]),
         ("ifund-empty", dep("cw20", ifund_bal=0), underwater_prefix(False, 0, 0, 30000) + [liq("liq", "tr1")]),
+        ("ifund-empty-funding", dep("cw20", ifund_bal=0), [opn("tr1", "buy", 3000), tx("feed", "append_price", "owner", dict(key="ETH", price=2500, t=100015)), block(3700), tx("engine", "pay_funding", "stranger", dict(vamm="vamm1"))]),
+        ("ifund-small-funding", dep("native", ifund_bal=10), [opn("tr1", "sell", 3000, funds=3000), tx("feed", "append_price", "owner", dict(key="ETH", price=300, t=100015)), block(3700), tx("engine", "pay_funding", "stranger", dict(vamm="vamm1"))]),
     ]
     for nm, d, ops in nat:
         out.append(dict(id="c08-nat-" + nm, deploy=d, ops=[block(15)] + ops))
@@ -294,6 +298,7 @@ def c16(tier, seed):
             "Lclose": close("liq"),
             "C": opn("tr1", "buy", 100, 1000, funds=100 if native else 0),
             "N": block(15),
+            "PF": tx("engine", "pay_funding", "stranger", dict(vamm="vamm1")),
         }
         seqs = set()
         names = list(acts)
@@ -305,11 +310,13 @@ def c16(tier, seed):
         for tail in (("A2",), ("A",), ("Ared",), ("N", "A2")):
             seqs.add(("Ared", "Lq") + tail)
             seqs.add(("B", "N", "Bred", "Lq", "B") + tail)
+            seqs.add(("A", "Lq", "PF") + tail)
+            seqs.add(("Ared", "PF", "Lq", "PF") + tail)
         for plr in (0, 25):
             for sq in sorted(seqs):
                 if "Lq" not in sq:
                     continue
-                ops = underwater_prefix(native) + [acts[a] for a in sq]
+                ops = underwater_prefix(native) + ([block(3600)] if "PF" in sq else []) + [acts[a] for a in sq]
                 out.append(dict(id="c16-%d" % k, deploy=dep(coll, engine=dict(plr=plr)), ops=ops))
                 k += 1
     return out
@@ -437,6 +444,71 @@ def c07(tier, seed):
                         k += 1
     return out
 
+def c04(tier, seed):
+    """large funding settlements (funding period one day, oracle far from the vAMM) before close / withdraw / reduce"""
+    out = []
+    k = 0
+    day = 86400
+    for coll in ("cw20", "native"):
+        native = coll == "native"
+        for side in ("buy", "sell"):
+            for oracle in (300, 500, 800, 1200, 1600, 2500):
+                for (m, lev) in ((2500, 1000), (1000, 200)):
+                    for nset in (1, 2):
+                        pre = [block(15), opn("tr1", side, m, lev, funds=m if native else 0),
+                               tx("feed", "append_price", "owner", dict(key="ETH", price=oracle, t=100015))]
+                        for _ in range(nset):
+                            pre += [block(day + 1), tx("engine", "pay_funding", "stranger", dict(vamm="vamm1"))]
+                        for last in ([close("tr1")], [tx("engine", "withdraw_margin", "tr1", dict(vamm="vamm1", amount=10))],
+                                     [opn("tr1", "sell" if side == "buy" else "buy", 50, 1000, funds=0), close("tr1")],
+                                     [query("engine", "margin_ratio", dict(vamm="vamm1", trader="tr1")), liq("liq", "tr1")]):
+                            out.append(dict(id="c04-%d" % k, deploy=dep(coll, vamms=[dict(period=day)]), ops=pre + last))
+                            k += 1
+    return out
+
+def c06f(tier, seed):
+    """funding accrued in the trader's favour (or against), then oracle divergence >= 10 %, then Liquidate"""
+    out = []
+    k = 0
+    day = 86400
+    for (vside, o1) in (("buy", 1800), ("buy", 1300), ("sell", 400), ("sell", 700)):
+        pside = "sell" if vside == "buy" else "buy"
+        for push in (2000, 3500, 5000):
+            grid = range(600, 1500, 40) if vside == "buy" else range(700, 1900, 50)
+            for p2 in grid:
+                ops = [block(15), opn("tr1", vside, 2500, 1000),
+                       tx("feed", "append_price", "owner", dict(key="ETH", price=o1, t=100015)),
+                       block(day + 1), tx("engine", "pay_funding", "stranger", dict(vamm="vamm1")),
+                       opn("tr2", pside, push, 1000), block(901),
+                       tx("feed", "append_price", "owner", dict(key="ETH", price=p2, t=100015)),
+                       query("vamm1", "is_over_spread_limit", {}),
+                       query("engine", "margin_ratio", dict(vamm="vamm1", trader="tr1")),
+                       liq("liq", "tr1")]
+                out.append(dict(id="c06f-%d" % k, deploy=dep("cw20", vamms=[dict(period=day)]), ops=ops))
+                k += 1
+    return out
+
+def c10(tier, seed):
+    """address / key aliasing: an account whose address is a suffix of a trader's, malformed vAMM strings"""
+    out = []
+    k = 0
+    for coll in ("cw20", "native"):
+        native = coll == "native"
+        base = [block(15), opn("tr1", "buy", 600, 1000, funds=600 if native else 0), opn("tr2", "sell", 300, 1000, funds=300 if native else 0)]
+        attacks = [
+            tx("engine", "deposit_margin", "sfx", dict(vamm="vamm1+co", amount=70), funds=70 if native else 0),
+            tx("engine", "withdraw_margin", "sfx", dict(vamm="vamm1+co", amount=70)),
+            tx("engine", "close_position", "sfx", dict(vamm="vamm1+co", limit=0)),
+            tx("engine", "open_position", "sfx", dict(vamm="vamm1+co", side="buy", margin=100, leverage=1000, limit=0), funds=100 if native else 0),
+            tx("engine", "deposit_margin", "sfx", dict(vamm="vamm1", amount=70), funds=70 if native else 0),
+            tx("engine", "liquidate", "sfx", dict(vamm="vamm1+co", trader="sfx", limit=0)),
+            tx("engine", "deposit_margin", "tr2", dict(vamm="vamm1+x", amount=70), funds=70 if native else 0),
+        ]
+        for a in attacks:
+            out.append(dict(id="c10-%d" % k, deploy=dep(coll), ops=base + [a, query("engine", "position", dict(vamm="vamm1", trader="tr1"))]))
+            k += 1
+    return out
+
 def for_property(pid, tier, seed):
     if pid == "C09":
         return [("c09matrix", c09(tier, seed))]
@@ -453,7 +525,11 @@ def for_property(pid, tier, seed):
     if pid == "C05":
         return [("c05lev", c05(tier, seed)), ("c08sweeps", c08(tier, seed))]
     if pid in ("C02", "C06", "C07", "C08x"):
-        return [("c06liq", c06(tier, seed)), ("c07vault", c07(tier, seed)), ("c08sweeps", c08(tier, seed)), ("c16orderings", c16(tier, seed))]
-    if pid in ("C10", "C12", "C04"):
-        return [("c08sweeps", c08(tier, seed)), ("c16orderings", c16(tier, seed)), ("c07vault", c07(tier, seed))]
+        return [("c06funding", c06f(tier, seed)), ("c04funding", c04(tier, seed)), ("c06liq", c06(tier, seed)), ("c07vault", c07(tier, seed)), ("c08sweeps", c08(tier, seed)), ("c16orderings", c16(tier, seed))]
+    if pid == "C10":
+        return [("c10alias", c10(tier, seed)), ("c08sweeps", c08(tier, seed)), ("c16orderings", c16(tier, seed)), ("c07vault", c07(tier, seed))]
+    if pid in ("C12", "C04"):
+        return [("c04funding", c04(tier, seed)), ("c08sweeps", c08(tier, seed)), ("c16orderings", c16(tier, seed)), ("c07vault", c07(tier, seed))]
+    if pid == "C11":
+        return [("c04funding", c04(tier, seed)), ("c06funding", c06f(tier, seed))]
     return []
